@@ -30,4 +30,5 @@ func init() {
 	alias("C05", "R9", "C18", "R1", "after a crash inside SaveBlock the block store must not report a height whose seen commit or parts are missing (restart would not go on committing)")
 	alias("C01", "R11", "C13", "R1", "a node that catches up by block sync also decides: it may apply a block only if a +2/3 commit covers exactly the hash and part-set header of the block it downloaded")
 	alias("C06", "R7", "C07", "R1", "a block is valid only if its last commit is a valid +2/3 commit of the previous validator set with every present signature checked (block validation calls the full verifier)")
+	alias("C17", "R8", "C10", "R1", "a block part from a peer is indexed into the part set only behind the bounds and proof checks: a hostile index must not panic the consensus routine")
 }
